@@ -294,35 +294,39 @@ structure CState where
   grouped : Grouped
   deriving Repr, Inhabited
 
-/-- `collectFieldsImpl`. `none` = stuck (out of fuel or panic, see `why`). The visited-fragment map
-    is shared by the whole traversal (Go passes the map, i.e. a reference). -/
+/-- One iteration of the loop of `collectFieldsImpl`; `recur` is the recursive call (at the remaining
+    fuel). The visited-fragment map is shared by the whole traversal (Go passes the map, i.e. a
+    reference), so it is part of the threaded state. -/
+def collectStep (S : Schema) (D : Document) (o : ObjT)
+    (recur : List Selection → CState → Except Stuck CState) (st : CState) (sel : Selection) : Except Stuck CState :=
+  if skipped sel.dirs then pure st else
+  match sel with
+  | .field pos alias name wkey argErr _ sub =>
+    let f : FieldNode := { pos, alias, name, wkey, argErr, sels := sub }
+    pure { st with grouped := st.grouped.append f.responseKey f }
+  | .spread _ name _ =>
+    if st.visited.contains name then pure st else
+    let st := { st with visited := name :: st.visited }
+    match D.frag? name with
+    | none => pure st
+    | some fr =>
+      match fragmentApplies S o fr.tc with
+      | .no => pure st
+      | .panic => .error (.panic "unexpected fragment type")
+      | .yes => recur fr.sels st
+  | .inline _ tc _ sub =>
+    match tc with
+    | none => recur sub st
+    | some tc =>
+      match fragmentApplies S o tc with
+      | .no => pure st
+      | .panic => .error (.panic "unexpected fragment type")
+      | .yes => recur sub st
+
+/-- `collectFieldsImpl`. `.error` = stuck (out of fuel, or the Go code would panic). -/
 def collectImpl (S : Schema) (D : Document) (o : ObjT) : Nat → List Selection → CState → Except Stuck CState
   | 0, _, _ => .error .outOfFuel
-  | fuel + 1, sels, st =>
-    sels.foldlM (init := st) fun st sel =>
-      if skipped sel.dirs then pure st else
-      match sel with
-      | .field pos alias name wkey argErr _ sub =>
-        let f : FieldNode := { pos, alias, name, wkey, argErr, sels := sub }
-        pure { st with grouped := st.grouped.append f.responseKey f }
-      | .spread _ name _ =>
-        if st.visited.contains name then pure st else
-        let st := { st with visited := name :: st.visited }
-        match D.frag? name with
-        | none => pure st
-        | some fr =>
-          match fragmentApplies S o fr.tc with
-          | .no => pure st
-          | .panic => .error (.panic "unexpected fragment type")
-          | .yes => collectImpl S D o fuel fr.sels st
-      | .inline _ tc _ sub =>
-        match tc with
-        | none => collectImpl S D o fuel sub st
-        | some tc =>
-          match fragmentApplies S o tc with
-          | .no => pure st
-          | .panic => .error (.panic "unexpected fragment type")
-          | .yes => collectImpl S D o fuel sub st
+  | fuel + 1, sels, st => sels.foldlM (collectStep S D o (collectImpl S D o fuel)) st
 
 abbrev CacheKey := String × List Pos
 abbrev Cache := List (CacheKey × Grouped)
